@@ -289,6 +289,8 @@ func (x *Exec) builtin(f *Frame, st *State, b *ssa.Builtin, info *CallInfo) []ca
 			st.assume(Ge(l, IntLit(0)))
 			st.assume(Eq(Eq(l, IntLit(0)), v.Nil))
 			return single(st, l)
+		case *BufVal:
+			return single(st, v.Len)
 		case *KeyVal:
 			l := x.freshTerm("keylen", SInt)
 			st.assume(Gt(l, IntLit(0)))
@@ -311,6 +313,19 @@ func (x *Exec) builtin(f *Frame, st *State, b *ssa.Builtin, info *CallInfo) []ca
 	case "append":
 		return single(st, x.appendBuiltin(f, st, info))
 	case "copy":
+		var dst *BufVal
+		var off *Term
+		switch d := info.Args[0].(type) {
+		case *BufVal:
+			dst = d
+		case *BufView:
+			dst, off = d.Buf, d.Lo
+		}
+		if dst != nil {
+			if src := x.asBytes(st, info.Args[1]); src != nil {
+				dst.Parts = append(dst.Parts, bufPart{Off: off, Val: src})
+			}
+		}
 		r := x.freshTerm("copied", SInt)
 		return single(st, r)
 	case "panic":
